@@ -70,10 +70,19 @@ TReceive ==
 
 MsgSet == {[to |-> SeqSet(T.msgs[i].to), txs |-> T.msgs[i].txs] : i \in DOMAIN T.msgs}
 
+(* Known finding: the batch is put into the seen cache while it is being picked, before the strategy and the network
+   are asked; when the proposer lookup fails / returns nobody, or the assigner has no peer for a transaction, nothing
+   goes out but the transactions still count as seen and are never offered to a peer again.  (A transaction whose
+   only recipient would be this node is not sent by design.)  The cache is stepped as the code does it; the
+   predicate marks the lines where that happens. *)
+KF_X03_unsent_batch_marked_seen(want, fails) ==
+  \/ fails
+  \/ Strategy = "assigner" /\ \E t \in SeqSet(want) : assign[t] = None
+
 TForce ==
   /\ Ev("force")
   /\ LET props == SeqSet(T.props)
-         want  == Want(T.visited, SeqSet(cache))
+         want  == Want(T.visited, cache)
          fails == Strategy = "proposers" /\ want # <<>> /\ (props = {} \/ T.perr)
          exp   == IF fails THEN {} ELSE Messages(want, props)
          pairs == UNION {m.to \X SeqSet(m.txs) : m \in MsgSet}
@@ -84,13 +93,14 @@ TForce ==
         /\ echoed' = (echoed \/ \E pr \in pairs : pr[2] \in got)
         /\ ever' = ever \cup pairs
         /\ UNCHANGED <<size, life, assign, got>>
+        /\ (IF KF_X03_unsent_batch_marked_seen(want, fails) THEN PrintT(<<"KF_HIT", "unsent-batch-marked-seen", l>>) ELSE TRUE)
         /\ diag' = Name(T.err = fails, "error-result") \cup
                    Name(Len(T.msgs) = Cardinality(MsgSet), "duplicate-message") \cup
                    Name(MsgSet = exp, "wrong-batch-or-recipients") \cup
                    Name(\A m \in MsgSet : BytesOf(m.txs) <= MaxSize, "batch-over-size") \cup
                    Name(T.badsends = 0, "malformed-send") \cup
                    Name(SeqSet(T.visited) \subseteq SeqSet(pool) /\ Len(T.visited) = Cardinality(SeqSet(T.visited)), "visited-not-from-mempool") \cup
-                   Name(SeqSet(T.visited) = SeqSet(pool) \/ Stopper(T.visited, SeqSet(cache)), "stopped-before-the-batch-was-full") \cup
+                   Name(SeqSet(T.visited) = SeqSet(pool) \/ Stopper(T.visited, cache), "stopped-before-the-batch-was-full") \cup
                    Name(Obs \subseteq SeqSet(pool) /\ \A t \in SeqSet(pool) \ Obs : life[t] = "expired", "live-transaction-left-the-mempool")
 
 TraceNext == TReset \/ TAdd \/ TReceive \/ TForce
